@@ -211,6 +211,24 @@ def correspond(ctx, prop, profile, quick_runs, thorough_runs, what, witnesses=No
             msg = "scenario %s, schedule %s: no sequential order of the operations explains the answers under the specification [%s | final %s]" % (
                 r["scenario"], " ".join(r["sched"]), obs, r["final_res"])
         violations.append(Violation(sig, msg, rp))
+    # the same schedules in the small-step Lean model: it must predict every answer exactly
+    ss_n, ss_bad = smallstep(ctx, allruns, profile)
+    bad_runs = set(ri for ri, _ in bad)
+    for ri, cmd, want, got in ss_bad:
+        if ri in bad_runs:
+            continue          # already reported as a property violation
+        r = allruns[ri]
+        sig = "%s-%s-smallstep-tie" % (prop.lower(), r["scenario"])
+        if sig in seen_sig:
+            continue
+        seen_sig.add(sig)
+        payload = {"property": prop, "kind": "smallstep-tie", "scenario": r["scenario"], "schedule": r["sched"], "trace": r["trace"],
+                   "command": cmd, "real_database": want, "small_step_model": got, "setup": r["setup"], "ops": r["ops"],
+                   "note": "the run is linearizable, but the small-step model Model/Conc (the object of C06_linearizable) predicts another answer under the same schedule: its steps no longer describe the code",
+                   "replay_env": "VERIF_SCHEDULES=%s:%s" % (r["scenario"], ",".join(r["sched"])), "repo": C.repo_head()}
+        rp = C.write_replay(prop, "%s-smallstep-tie" % r["scenario"], payload)
+        violations.append(Violation(sig, "scenario %s, schedule %s: the real database answered `%s` where the small-step model answers `%s` to `%s` under the same schedule (tie of Model/Conc broken)"
+                                    % (r["scenario"], " ".join(r["sched"]), want, got, cmd), rp, found_input=False))
     distinct = len(set((r["scenario"], tuple(r["trace"])) for r in allruns))
     nontriv = len(set((r["scenario"], tuple(r["trace"])) for r in allruns if any(t.startswith("blocked") for t in r["trace"]) or len(set(r["sched"])) > 1))
     by_sc = {}
@@ -222,7 +240,9 @@ def correspond(ctx, prop, profile, quick_runs, thorough_runs, what, witnesses=No
     cov = {"evaluations": len(allruns), "distinct_nontrivial": nontriv,
            "rule": "schedules of small client programs enforced on the real inline database at the verif hook points and operation boundaries (stateless DFS over actor choices, random order beyond the first); distinct = different event trace, non-trivial = at least two actors interleaved; every run's answers must be explained by some linearization under Spec.Iso (%d candidate linearizations evaluated by the Lean driver)" % ncands,
            "traces_validated_against_impl": len(allruns), "distribution": {"runs_by_scenario": by_sc, "distinct_traces": distinct},
-           "samples": samples, "summary": "%d enforced schedules, all linearizable" % len(allruns)}
+           "samples": samples, "smallstep_model_replays": ss_n,
+           "smallstep_rule": "every enforced run without a goroutine blocked on a lock of the real code is replayed in the small-step Lean model Model/Conc under the same schedule (hook points = program counters); every answer of every operation must be the one the model computes",
+           "summary": "%d enforced schedules, all linearizable; %d replayed step by step in the small-step model with equal answers" % (len(allruns), ss_n)}
     return {"violations": violations, "coverage": cov}
 
 
